@@ -5,12 +5,12 @@ CFG = dict(
               "C04.group_partition_aggregator", "C04.group_partition_window", "C04.facts_encoders"],
     rule="a case is a pool of key tuples (arity 0-3, one scalar type per column: strings over separator-like fragments "
          "'|' '\\\\' 0x1f ',' 0x00 'N' '\\x00NULL' '\\\\N' '' , ints, floats, bools, NULL, missing; shifted siblings (a+sep+b,c)/(a,b+sep+c) and "
-         "NULL/''/marker-text siblings) used in one of the modes enc (four encoders through accessors, byte-exact), agg (GroupAggregator "
+         "NULL/''/marker-text siblings) used in one of the modes enc (four encoders through accessors, byte-exact), ses (SessionWindow Add/Trigger + aggregator), agg (GroupAggregator "
          "Add/GetResults with count(*), collect(id)), cnt / glb (SQL with CountingWindow(N) / GLOBAL WINDOW TRIGGER WHEN count(*) >= N, "
          "optional AS aliases); distinct = distinct (cfg, op list)",
     assumptions=["strconv/fmt number formatting is a function of the float64 bits and injective on the generated floats (hypothesis fltOkT of the typed theorems); NaN and -0 are not generated",
                  "one Go type per GROUP BY column (the property's quantifier); int 1 and string \"1\" in one column render alike and are outside it",
-                 "time windows (tumbling/sliding/session) reach the same GroupAggregator: they are tied through mode agg and the session key accessor, not through SQL runs (clock-dependent)",
+                 "tumbling/sliding windows reach the same GroupAggregator and are tied through mode agg; session windows through mode ses (real SessionWindow driven by Add/Trigger without its goroutine) - not through SQL runs (clock-dependent)",
                  "output naming of group columns (alias > stripped name) is tied by correspondence only (SQL modes with AS aliases)"],
     unproved=[],
 )
